@@ -214,4 +214,107 @@ example : |cubicPoly 0 0 0 1 (1 / 100) - chordAt 0 (1 / 50) (cubicPoly 0 0 0 1 0
   cubic_chord_error_le_second_deriv 0 0 0 1 0 (1 / 50) (1 / 100) (3 / 25) (by norm_num) (by norm_num) (by norm_num)
     (by intro ξ h0 h1; rw [abs_of_nonneg (by linarith)]; linarith)
 
+/-! ### the bound: `h²/8 · sup ‖q''‖`, Euclidean norm -/
+
+/-- the Euclidean norm of the plane, `√(x² + y²)` (so `eDist p q = eNorm (p − q)`). -/
+noncomputable def eNorm (p : ℝ × ℝ) : ℝ := √(p.1 ^ 2 + p.2 ^ 2)
+
+theorem eNorm_nonneg (p : ℝ × ℝ) : 0 ≤ eNorm p := Real.sqrt_nonneg _
+
+theorem eNorm_sq (p : ℝ × ℝ) : eNorm p ^ 2 = p.1 ^ 2 + p.2 ^ 2 := Real.sq_sqrt (by positivity)
+
+theorem eDist_eq_eNorm (p q : ℝ × ℝ) : eDist p q = eNorm (p.1 - q.1, p.2 - q.2) := rfl
+
+theorem eNorm_eq_norm (p : ℝ × ℝ) : eNorm p = ‖(⟨p.1, p.2⟩ : ℂ)‖ := by
+  unfold eNorm; rw [Complex.norm_def, Complex.normSq_apply]; congr 1; ring
+
+/-- one coordinate of the second derivative of the span curve: `q''(t) = (2a − 5b + 4c − d) + 3 (−a + 3b − 3c + d) t`. -/
+def catmullAccCoord (a b c d t : ℝ) : ℝ := (2 * a - 5 * b + 4 * c - d) + 3 * (-a + 3 * b - 3 * c + d) * t
+
+/-- the second derivative `q''(t)` of the span curve `q = catmullExact v1 v2 v3 v4` (`catmullCoord_hasDerivAt`,
+`catmullVelCoord_hasDerivAt` below). -/
+def catmullAcc (v1 v2 v3 v4 : Pos ℝ) (t : ℝ) : ℝ × ℝ :=
+  (catmullAccCoord v1.x v2.x v3.x v4.x t, catmullAccCoord v1.y v2.y v3.y v4.y t)
+
+/-- **`M = sup_{t ∈ [0,1]} ‖q''(t)‖`**: `q''` is affine in `t`, so the supremum of its norm is taken at an end,
+`M = max ‖q''(0)‖ ‖q''(1)‖ = max ‖2v1 − 5v2 + 4v3 − v4‖ ‖−v1 + 4v2 − 5v3 + 2v4‖`. -/
+noncomputable def catmullM (v1 v2 v3 v4 : Pos ℝ) : ℝ :=
+  max (eNorm (catmullAcc v1 v2 v3 v4 0)) (eNorm (catmullAcc v1 v2 v3 v4 1))
+
+/-- **the bound**: `h²/8 · M` with `h = 1/CATMULL_DETAIL = 1/50`, i.e. `M / 20000`. -/
+noncomputable def catmullBound (v1 v2 v3 v4 : Pos ℝ) : ℝ := (1 / 50) ^ 2 / 8 * catmullM v1 v2 v3 v4
+
+theorem catmullM_nonneg (v1 v2 v3 v4 : Pos ℝ) : 0 ≤ catmullM v1 v2 v3 v4 :=
+  le_trans (eNorm_nonneg _) (le_max_left _ _)
+
+theorem catmullBound_nonneg (v1 v2 v3 v4 : Pos ℝ) : 0 ≤ catmullBound v1 v2 v3 v4 :=
+  mul_nonneg (by norm_num) (catmullM_nonneg _ _ _ _)
+
+theorem catmullBound_eq (v1 v2 v3 v4 : Pos ℝ) : catmullBound v1 v2 v3 v4 = catmullM v1 v2 v3 v4 / 20000 := by
+  unfold catmullBound; ring
+
+/-- `‖q''(ξ)‖ ≤ M` on `[0, 1]` (squared form): the norm of an affine function is convex. -/
+theorem catmullAcc_sq_le (v1 v2 v3 v4 : Pos ℝ) (ξ : ℝ) (h0 : 0 ≤ ξ) (h1 : ξ ≤ 1) :
+    (catmullAcc v1 v2 v3 v4 ξ).1 ^ 2 + (catmullAcc v1 v2 v3 v4 ξ).2 ^ 2 ≤ catmullM v1 v2 v3 v4 ^ 2 := by
+  have hu : (catmullAcc v1 v2 v3 v4 0).1 ^ 2 + (catmullAcc v1 v2 v3 v4 0).2 ^ 2 ≤ catmullM v1 v2 v3 v4 ^ 2 := by
+    rw [← eNorm_sq]; exact pow_le_pow_left₀ (eNorm_nonneg _) (le_max_left _ _) 2
+  have hv : (catmullAcc v1 v2 v3 v4 1).1 ^ 2 + (catmullAcc v1 v2 v3 v4 1).2 ^ 2 ≤ catmullM v1 v2 v3 v4 ^ 2 := by
+    rw [← eNorm_sq]; exact pow_le_pow_left₀ (eNorm_nonneg _) (le_max_right _ _) 2
+  have ex : (catmullAcc v1 v2 v3 v4 ξ).1 =
+      (1 - ξ) * (catmullAcc v1 v2 v3 v4 0).1 + ξ * (catmullAcc v1 v2 v3 v4 1).1 := by
+    simp only [catmullAcc, catmullAccCoord]; ring
+  have ey : (catmullAcc v1 v2 v3 v4 ξ).2 =
+      (1 - ξ) * (catmullAcc v1 v2 v3 v4 0).2 + ξ * (catmullAcc v1 v2 v3 v4 1).2 := by
+    simp only [catmullAcc, catmullAccCoord]; ring
+  rw [ex, ey]
+  generalize (catmullAcc v1 v2 v3 v4 0).1 = ux at *
+  generalize (catmullAcc v1 v2 v3 v4 0).2 = uy at *
+  generalize (catmullAcc v1 v2 v3 v4 1).1 = wx at *
+  generalize (catmullAcc v1 v2 v3 v4 1).2 = wy at *
+  generalize catmullM v1 v2 v3 v4 = M at *
+  have hconv : ((1 - ξ) * ux + ξ * wx) ^ 2 + ((1 - ξ) * uy + ξ * wy) ^ 2 =
+      (1 - ξ) * (ux ^ 2 + uy ^ 2) + ξ * (wx ^ 2 + wy ^ 2) - ξ * (1 - ξ) * ((ux - wx) ^ 2 + (uy - wy) ^ 2) := by ring
+  have h3 : 0 ≤ ξ * (1 - ξ) * ((ux - wx) ^ 2 + (uy - wy) ^ 2) :=
+    mul_nonneg (mul_nonneg h0 (by linarith)) (by positivity)
+  have h4 : (1 - ξ) * (ux ^ 2 + uy ^ 2) ≤ (1 - ξ) * M ^ 2 := mul_le_mul_of_nonneg_left hu (by linarith)
+  have h5 : ξ * (wx ^ 2 + wy ^ 2) ≤ ξ * M ^ 2 := mul_le_mul_of_nonneg_left hv h0
+  nlinarith [hconv, h3, h4, h5]
+
+/-- `‖q''(ξ)‖ ≤ M` on `[0, 1]`, and `M` is attained at `ξ = 0` or `ξ = 1`: `M` is the supremum. -/
+theorem catmullAcc_le_M (v1 v2 v3 v4 : Pos ℝ) (ξ : ℝ) (h0 : 0 ≤ ξ) (h1 : ξ ≤ 1) :
+    eNorm (catmullAcc v1 v2 v3 v4 ξ) ≤ catmullM v1 v2 v3 v4 :=
+  (Real.sqrt_le_left (catmullM_nonneg _ _ _ _)).2 (catmullAcc_sq_le v1 v2 v3 v4 ξ h0 h1)
+
+theorem catmullM_attained (v1 v2 v3 v4 : Pos ℝ) :
+    catmullM v1 v2 v3 v4 = eNorm (catmullAcc v1 v2 v3 v4 0) ∨ catmullM v1 v2 v3 v4 = eNorm (catmullAcc v1 v2 v3 v4 1) := by
+  unfold catmullM
+  rcases le_total (eNorm (catmullAcc v1 v2 v3 v4 0)) (eNorm (catmullAcc v1 v2 v3 v4 1)) with h | h
+  · exact Or.inr (max_eq_right h)
+  · exact Or.inl (max_eq_left h)
+
+/-- the coefficient vectors `C2 = 2v1 − 5v2 + 4v3 − v4`, `C3 = −v1 + 3v2 − 3v3 + v4` of `t²`, `t³` (before the factor 0.5). -/
+def catmullC2 (v1 v2 v3 v4 : Pos ℝ) : ℝ × ℝ :=
+  (2 * v1.x - 5 * v2.x + 4 * v3.x - v4.x, 2 * v1.y - 5 * v2.y + 4 * v3.y - v4.y)
+def catmullC3 (v1 v2 v3 v4 : Pos ℝ) : ℝ × ℝ :=
+  (-v1.x + 3 * v2.x - 3 * v3.x + v4.x, -v1.y + 3 * v2.y - 3 * v3.y + v4.y)
+
+/-- the coarser explicit bound `M ≤ ‖2v1 − 5v2 + 4v3 − v4‖ + 3 ‖−v1 + 3v2 − 3v3 + v4‖`. -/
+theorem catmullM_le_coeff (v1 v2 v3 v4 : Pos ℝ) :
+    catmullM v1 v2 v3 v4 ≤ eNorm (catmullC2 v1 v2 v3 v4) + 3 * eNorm (catmullC3 v1 v2 v3 v4) := by
+  have h3 : 0 ≤ 3 * eNorm (catmullC3 v1 v2 v3 v4) := mul_nonneg (by norm_num) (eNorm_nonneg _)
+  unfold catmullM
+  apply max_le
+  · have : catmullAcc v1 v2 v3 v4 0 = catmullC2 v1 v2 v3 v4 := by
+      simp only [catmullAcc, catmullAccCoord, catmullC2]; ext <;> simp
+    rw [this]; linarith
+  · rw [eNorm_eq_norm, eNorm_eq_norm, eNorm_eq_norm]
+    have : (⟨(catmullAcc v1 v2 v3 v4 1).1, (catmullAcc v1 v2 v3 v4 1).2⟩ : ℂ) =
+        ⟨(catmullC2 v1 v2 v3 v4).1, (catmullC2 v1 v2 v3 v4).2⟩ +
+          (3 : ℂ) * ⟨(catmullC3 v1 v2 v3 v4).1, (catmullC3 v1 v2 v3 v4).2⟩ := by
+      apply Complex.ext <;> simp [catmullAcc, catmullAccCoord, catmullC2, catmullC3]
+    rw [this]
+    refine le_trans (norm_add_le _ _) ?_
+    rw [norm_mul]
+    simp
+
 end Rosu.C17
